@@ -575,6 +575,12 @@ func (t *WeightedMerkleTrie) collectDeleteAndCreated(deleteChan, createdChan cha
 			var k [32]byte
 			copy(k[:], hash)
 			delete(t.deleted, k)
+			// nodes are content addressed: a node with this hash may already be in
+			// storage, owned by an earlier commit (e.g. the checkpoint); it is not
+			// created by this commit and a rollback must not delete it
+			if _, err := t.db.Get(hash); err == nil {
+				continue
+			}
 			t.created = append(t.created, hash)
 		}
 		wg.Done()
